@@ -323,9 +323,9 @@ var ActionSets = [][][2]int{
 }
 
 func classOf(g glyph.ID) uint16 {
-	// context class table: A=1, B=2, everything else 0
+	// context class table: A=1, B=2, L=1, everything else 0
 	switch g {
-	case GA:
+	case GA, GL:
 		return 1
 	case GB:
 		return 2
@@ -333,7 +333,9 @@ func classOf(g glyph.ID) uint16 {
 	return 0
 }
 
-var ctxClasses = classdef.Table{GA: 1, GB: 2}
+// (L shares the class of A: the coverage table of a class-based rule that starts with A is narrower than
+// the class of its first glyph, and the rule must not fire at L)
+var ctxClasses = classdef.Table{GA: 1, GB: 2, GL: 1}
 
 // Context builds a contextual subtable of the given form (0..2: SeqContext
 // format 1..3; 3..5: chained format 1..3).  For the non-chained forms the
